@@ -9,15 +9,18 @@ trap "git -C /repo worktree remove --force $WT >/dev/null 2>&1" EXIT
 GCFG=$(mktemp /tmp/confirm-gitconfig-XXXXXX); export GIT_CONFIG_GLOBAL=$GCFG GOFLAGS=-mod=mod GOPROXY=off
 cd $WT
 demo() {
+  local saved=$GIT_CONFIG_GLOBAL; [ "$PKG" = sh ] || [ "$PKG" = shbin ] || [ "$PKG" = shbindir ] && unset GIT_CONFIG_GLOBAL
   if [ "$PKG" = sh ]; then SRC=$WT bash $D/demo.sh $WT >/tmp/confirm-demo-$$.log 2>&1;
+  elif [ "$PKG" = shbindir ]; then mkdir -p /tmp/confirm-bin-$$ && go build -o /tmp/confirm-bin-$$/git-lfs . && (cd /tmp && PATH=/tmp/confirm-bin-$$:$PATH bash $D/demo.sh /tmp/confirm-bin-$$) >/tmp/confirm-demo-$$.log 2>&1;
   elif [ "$PKG" = shbin ]; then mkdir -p /tmp/confirm-bin-$$ && go build -o /tmp/confirm-bin-$$/git-lfs . && (cd /tmp && PATH=/tmp/confirm-bin-$$:$PATH bash $D/demo.sh /tmp/confirm-bin-$$/git-lfs) >/tmp/confirm-demo-$$.log 2>&1; else cp $D/demo_test.go $WT/$PKG/zz_seed_demo_test.go; go test -vet=off -count=1 -run "$RUN" ./$PKG/ >/tmp/confirm-demo-$$.log 2>&1; fi
-  rc=$?; rm -f $WT/$PKG/zz_seed_demo_test.go; return $rc
+  rc=$?; rm -f $WT/$PKG/zz_seed_demo_test.go; export GIT_CONFIG_GLOBAL=$saved; : > $saved; return $rc
 }
-demo; base=$?
+demo; base=$?; cp /tmp/confirm-demo-$$.log /tmp/confirm-demo-base-$$.log
 git apply $D/patch.diff || { echo "CONFIRM: patch does not apply"; exit 3; }
 go build ./... || { echo "CONFIRM: does not build"; exit 3; }
 go test -vet=off -count=1 ./tq/ ./lfs/ ./commands/ ./lfsapi/ ./lfshttp/ ./config/ ./creds/ ./git/... ./errors/ ./tools/... ./fs/ > /tmp/confirm-tests-$$.log 2>&1; tests=$?
 demo; patched=$?
 echo "CONFIRM $(basename $(dirname $D))/$(basename $D): demo-without-patch=$base (want 0) suite-with-patch=$tests (want 0) demo-with-patch=$patched (want !=0)"
-[ $tests -ne 0 ] && grep -v "^ok" /tmp/confirm-tests-$$.log | head -5
-rm -rf /tmp/confirm-demo-$$.log /tmp/confirm-tests-$$.log /tmp/confirm-bin-$$
+[ $tests -ne 0 ] && grep -v "^ok" /tmp/confirm-tests-$$.log | grep -v "^Config" | head -8
+[ $base -ne 0 ] && tail -5 /tmp/confirm-demo-base-$$.log
+rm -rf /tmp/confirm-demo-base-$$.log /tmp/confirm-demo-$$.log /tmp/confirm-tests-$$.log /tmp/confirm-bin-$$
